@@ -315,7 +315,7 @@ func (g *seqGen) step(o *seqObj) {
 		g.tag(o, m, st, false)
 		calls := map[string]string{
 			"AddRow": n + ".AddRow(\"a\", 1)", "AddRowShort": n + ".AddRow(\"a\")", "AddRowLong": n + ".AddRow(\"a\", 1, 2, 3)", "Sort": n + ".Sort(\"Name\")", "SortBad": n + ".Sort(\"nope\")",
-			"Find": "fmt.Println(" + n + ".Find(func(a string, b string) bool {\n\treturn a == \"a\"\n}))", "Len": "fmt.Println(" + n + ".Len())", "Get": "fmt.Println(" + n + ".Get(" + rapid.SampledFrom([]string{"0", "-1", "99"}).Draw(t, "row") + ", \"Name\"))",
+			"Find": "fmt.Println(" + n + ".Find(func(a string, b string) bool {\n\t_ = b\n\treturn a == \"a\"\n}))", "Len": "fmt.Println(" + n + ".Len())", "Get": "fmt.Println(" + n + ".Get(" + rapid.SampledFrom([]string{"0", "-1", "99"}).Draw(t, "row") + ", \"Name\"))",
 			"GetRow": "fmt.Println(" + n + ".GetRow(" + rapid.SampledFrom([]string{"0", "-1", "99"}).Draw(t, "row") + "))", "Close": n + ".Close()", "AddColumn": n + ".AddColumn(\"Extra\")", "String": "fmt.Println(len(" + n + ".String(\"text\")))",
 			"Align": n + ".Align(\"Name\", \"left\")", "Pagination": n + ".Pagination(" + rapid.SampledFrom([]string{"0, 0", "-1, -1", "10, 80"}).Draw(t, "pg") + ")",
 		}
@@ -358,22 +358,22 @@ func (g *seqGen) concurrent(o *seqObj) {
 	case "rw":
 		script = rapid.SampledFrom([]string{
 			"for i := 0; i < 20; i++ {\n\t\tif " + n + ".TryRLock() {\n\t\t\t" + n + ".RUnlock()\n\t\t}\n\t\tif " + n + ".TryLock() {\n\t\t\t" + n + ".Unlock()\n\t\t}\n\t}",
-			"for i := 0; i < 20; i++ {\n\t\t" + n + ".TryRLock()\n\t\ttry {\n\t\t\t" + n + ".RUnlock()\n\t\t} catch (e) {\n\t\t}\n\t}",
+			"for i := 0; i < 20; i++ {\n\t\t" + n + ".TryRLock()\n\t\ttry {\n\t\t\t" + n + ".RUnlock()\n\t\t} catch (e) {\n\t\t\t_ = e\n\t\t}\n\t}",
 		}).Draw(g.t, "script")
 	case "wg":
 		script = "for i := 0; i < 20; i++ {\n\t\t" + n + ".Add(1)\n\t\t" + n + ".Done()\n\t}"
 	case "ch":
 		if !o.open || o.cap == 0 {
-			script = "try {\n\t\tclose(" + n + ")\n\t} catch (e) {\n\t}"
+			script = "try {\n\t\tclose(" + n + ")\n\t} catch (e) {\n\t\t_ = e\n\t}"
 		} else {
-			script = "try {\n\t\t" + n + " <- 1\n\t\tv := <-" + n + "\n\t\t_ = v\n\t} catch (e) {\n\t}"
+			script = "try {\n\t\t" + n + " <- 1\n\t\tv := <-" + n + "\n\t\t_ = v\n\t} catch (e) {\n\t\t_ = e\n\t}"
 		}
 	case "sb":
 		script = "for i := 0; i < 50; i++ {\n\t\t" + n + ".WriteString(\"ab\")\n\t}"
 	case "mp":
 		script = "for i := 0; i < 100; i++ {\n\t\t" + n + "[strconv.Itoa(i)] = i\n\t\tdelete(" + n + ", strconv.Itoa(i-1))\n\t}"
 	case "tb":
-		script = "for i := 0; i < 20; i++ {\n\t\ttry {\n\t\t\t" + n + ".AddRow(\"c\", i)\n\t\t} catch (e) {\n\t\t}\n\t}"
+		script = "for i := 0; i < 20; i++ {\n\t\ttry {\n\t\t\t" + n + ".AddRow(\"c\", i)\n\t\t} catch (e) {\n\t\t\t_ = e\n\t\t}\n\t}"
 	default:
 		return
 	}
@@ -446,7 +446,7 @@ func genSeq(t *rapid.T) Case {
 	}
 	sortStrings(c.Tags)
 	imports := "import (\n\t\"fmt\"\n\t\"os\"\n\t\"strconv\"\n\t\"strings\"\n\t\"sync\"\n\t\"tables\"\n)\n"
-	use := "func use(a ...any) {}\n"
+	use := "func use(a ...any) {\n\t_ = a\n}\n"
 	var names []string
 	for _, o := range g.objs {
 		names = append(names, o.name)
